@@ -2085,11 +2085,22 @@ impl<'a, E: quiver_core::effects::Effect> Compiler<'a, E> {
             // check and (for non-last branches) accumulate it to narrow subsequent branches.
             if let Some((prov, original, narrowed)) = narrowing.take() {
                 // This branch narrowed structurally (its narrowing wasn't disabled by a value
-                // requirement), so it faithfully covers its guard. Record the guard so the
-                // uncovered region can be computed as the complement of these — never the
+                // requirement), so it faithfully covers what its pattern matched. Record that so
+                // the uncovered region can be computed as the complement of these — never the
                 // over-broad guards of value-pattern branches.
+                //
+                // For a whole-parameter match that is the *matched* type, not the guard: the
+                // guard is the parameter narrowed by the match's result type, whose `[]` only
+                // says "this match can fail" (and it is not narrowed at all when that result is
+                // exactly `[]`, as for `=[]` or an unsatisfiable `=('int)n`). Counting the guard
+                // would mark a nil (or any) argument the pattern rejects as handled, and the
+                // `uncovered -> nil` row below would be lost.
                 if let Some(guard) = branch_guard {
-                    faithfully_covered.push(guard);
+                    faithfully_covered.push(if prov == Provenance::Parameter {
+                        narrowed
+                    } else {
+                        guard
+                    });
                 }
                 let complement = compute_complement(original, narrowed, self.program);
                 if self.is_never(complement) {
